@@ -186,6 +186,11 @@ def eligible(fn: ast.FunctionDef) -> bool:
     return True
 
 
+def _is_expr_helper(fn: ast.FunctionDef) -> bool:
+    b = _body(fn)
+    return len(b) == 1 and isinstance(b[0], ast.Return)
+
+
 def eligible_generator(fn: ast.FunctionDef) -> bool:
     """A generator whose `yield e` are plain expression statements: `for x in gen(..): BODY` can be replaced by
     the generator's body with `x = e; BODY` at every yield."""
@@ -584,7 +589,23 @@ def inline_generator_loop(site: "Site", loop: ast.For) -> list[ast.stmt]:
     class Y(ast.NodeTransformer):
         def visit_Expr(self, n):
             if isinstance(n.value, ast.Yield):
-                return [ast.Assign([copy.deepcopy(loop.target)], n.value.value)] + copy.deepcopy(loop.body)
+                bind = [ast.Assign([copy.deepcopy(loop.target)], n.value.value)]
+                lb = copy.deepcopy(loop.body)
+                # `for a, b in gen(): BODY` at `yield x, y`: where BODY never re-binds a or b and the generator's x, y are
+                # plain names, BODY reads x and y themselves (the bindings stay for readers after the loop)
+                tg, yv = loop.target, n.value.value
+                pairs = list(zip(tg.elts, yv.elts)) if isinstance(tg, ast.Tuple) and isinstance(yv, ast.Tuple) \
+                    and len(tg.elts) == len(yv.elts) else [(tg, yv)]
+                stored = {y.id for s_ in lb for y in ast.walk(s_) if isinstance(y, ast.Name) and isinstance(y.ctx, (ast.Store, ast.Del))}
+                closures = any(isinstance(y, (ast.FunctionDef, ast.Lambda)) for s_ in lb for y in ast.walk(s_))
+                ren = {t.id: v.id for t, v in pairs if isinstance(t, ast.Name) and isinstance(v, ast.Name)
+                       and t.id not in stored and v.id not in stored and t.id != v.id}
+                if ren and not closures:
+                    class RN(ast.NodeTransformer):
+                        def visit_Name(self, x):
+                            return ast.copy_location(ast.Name(ren[x.id], x.ctx), x) if x.id in ren and isinstance(x.ctx, ast.Load) else x
+                    lb = [RN().visit(s_) for s_ in lb]
+                return bind + lb
             return n
     out = []
     for st in body:
@@ -642,6 +663,13 @@ def _lower_structured(stmts: list[ast.stmt], ret) -> list[ast.stmt]:
                 # last statement of the helper: returns become assignments, control leaves the try normally
                 hs = [ast.ExceptHandler(h.type, h.name, go(list(h.body), None) or [ast.Pass()]) for h in s.handlers]
                 return [ast.Try(go(list(s.body), None) or [ast.Pass()], hs, [], list(s.finalbody))]
+            if isinstance(s, ast.Try) and not s.orelse and not s.finalbody and not any(_contains_return(x) for x in s.body) \
+                    and s.handlers and all(h.body and isinstance(h.body[-1], (ast.Return, ast.Raise)) for h in s.handlers):
+                # `try: A  except E: return x` followed by the rest: every handler leaves, so the rest runs exactly when A
+                # raised nothing -- it is the try's else clause (whose exceptions the handlers do not see either)
+                kk = go(rest, k)
+                hs = [ast.ExceptHandler(h.type, h.name, go(list(h.body), None) or [ast.Pass()]) for h in s.handlers]
+                return [ast.Try(list(s.body), hs, kk or [ast.Pass()], [])]
             if isinstance(s, ast.With) and not rest and k is None:
                 return [ast.With(s.items, go(list(s.body), None) or [ast.Pass()])]
             if isinstance(s, (ast.While, ast.For)) and rest and not s.orelse and _returns_at_loop_level(s):
@@ -1135,6 +1163,92 @@ def _thread_flags(body: list[ast.stmt]) -> bool:
                 changed |= _thread_flags(b)
         for h in getattr(st, "handlers", []) or []:
             changed |= _thread_flags(h.body)
+    return changed
+
+
+def _beta_reduce_lambdas(fn: ast.FunctionDef) -> bool:
+    """`g = lambda p, q: E` (bound once) and later `g(a, b)` with plain names / constants as arguments: the call is
+    E[p := a, q := b], provided nothing that E reads is re-bound after the lambda was made and `g` is only ever called."""
+    changed = False
+    stores: dict[str, int] = {}
+    for n in ast.walk(fn):
+        if isinstance(n, ast.Name) and isinstance(n.ctx, (ast.Store, ast.Del)):
+            stores[n.id] = stores.get(n.id, 0) + 1
+    params = {a.arg for a in fn.args.posonlyargs + fn.args.args + fn.args.kwonlyargs}
+
+    def block(body: list[ast.stmt]) -> None:
+        nonlocal changed
+        for i, st in enumerate(body):
+            if isinstance(st, ast.Assign) and len(st.targets) == 1 and isinstance(st.targets[0], ast.Name) \
+                    and isinstance(st.value, ast.Lambda) and stores.get(st.targets[0].id) == 1 and st.targets[0].id not in params:
+                g, lam = st.targets[0].id, st.value
+                a_ = lam.args
+                if a_.vararg or a_.kwarg or a_.kwonlyargs or a_.defaults or a_.posonlyargs:
+                    continue
+                ps = [x.arg for x in a_.args]
+                if any(isinstance(y, (ast.Lambda, ast.NamedExpr, ast.Yield, ast.Await, ast.ListComp, ast.SetComp, ast.DictComp, ast.GeneratorExp))
+                       for y in ast.walk(lam.body)):
+                    continue
+                free = {y.id for y in ast.walk(lam.body) if isinstance(y, ast.Name)} - set(ps)
+                rest = body[i + 1:]
+                if any(isinstance(y, ast.Name) and isinstance(y.ctx, (ast.Store, ast.Del)) and y.id in free for r in rest for y in ast.walk(r)):
+                    continue
+                # every use of g in the function: a call with matching plain arguments, after the definition, in this block
+                uses = [y for y in ast.walk(fn) if isinstance(y, ast.Name) and y.id == g and isinstance(y.ctx, ast.Load)]
+                calls = [y for r in rest for y in ast.walk(r) if isinstance(y, ast.Call) and isinstance(y.func, ast.Name) and y.func.id == g]
+                if not calls or len(calls) != len(uses):
+                    continue
+                if any(isinstance(y, (ast.FunctionDef, ast.Lambda)) and any(isinstance(z, ast.Name) and z.id == g for z in ast.walk(y))
+                       for r in rest for y in ast.walk(r)):
+                    continue
+
+                def plain(e):
+                    return isinstance(e, (ast.Name, ast.Constant))
+                ok = True
+                for c in calls:
+                    if c.keywords and any(k.arg is None or k.arg not in ps for k in c.keywords):
+                        ok = False
+                    if len(c.args) + len(c.keywords) != len(ps) or any(isinstance(x, ast.Starred) for x in c.args):
+                        ok = False
+                    if not all(plain(x) for x in c.args) or not all(plain(k.value) for k in c.keywords):
+                        ok = False
+                if not ok:
+                    continue
+
+                class Sub(ast.NodeTransformer):
+                    def __init__(self, env):
+                        self.env = env
+
+                    def visit_Name(self, n):
+                        return copy.deepcopy(self.env[n.id]) if n.id in self.env and isinstance(n.ctx, ast.Load) else n
+
+                class Red(ast.NodeTransformer):
+                    def visit_Call(self, c):
+                        self.generic_visit(c)
+                        if isinstance(c.func, ast.Name) and c.func.id == g:
+                            env = dict(zip(ps, c.args))
+                            env.update({k.arg: k.value for k in c.keywords})
+                            e = Sub(env).visit(copy.deepcopy(lam.body))
+                            for y in ast.walk(e):
+                                if hasattr(y, "lineno"):
+                                    y.lineno = y.end_lineno = c.lineno
+                            return ast.copy_location(e, c)
+                        return c
+                for k in range(i + 1, len(body)):
+                    body[k] = Red().visit(body[k])
+                body[i] = ast.copy_location(ast.Pass(), st)
+                changed = True
+        for st in body:
+            if not isinstance(st, (ast.FunctionDef, ast.ClassDef)):
+                for fld in ("body", "orelse", "finalbody"):
+                    b = getattr(st, fld, None)
+                    if isinstance(b, list) and b and isinstance(b[0], ast.stmt):
+                        block(b)
+                for h in getattr(st, "handlers", []) or []:
+                    block(h.body)
+    block(fn.body)
+    if changed:
+        ast.fix_missing_locations(fn)
     return changed
 
 
@@ -1765,6 +1879,70 @@ def apply(repo) -> dict:
         if qn[0]:
             repo.reindex()
             new0 = {k: f for k, f in repo.functions.items() if k not in known}
+    # `xs = [v for a in A if (v := helper(a)) is not None]` with a new multi-statement helper: a loop with the call as a
+    # statement of its own, which the helper's body can replace
+    multi0 = {k for k, f in new0.items() if eligible(f.node) and not _is_expr_helper(f.node)}
+    if multi0:
+        from .repo import _lower_comp
+        cnt = [100]
+        lowered = False
+        for f in list(repo.functions.values()):
+            if f.key in multi0:
+                continue
+
+            def lower_w(body: list) -> bool:
+                ch = False
+                k = 0
+                while k < len(body):
+                    st = body[k]
+                    if isinstance(st, ast.Assign) and len(st.targets) == 1 and isinstance(st.targets[0], ast.Name) \
+                            and isinstance(st.value, (ast.ListComp, ast.SetComp)) and len(st.value.generators) == 1 \
+                            and not st.value.generators[0].is_async and len(st.value.generators[0].ifs) == 1:
+                        c0 = st.value.generators[0].ifs[0]
+                        first = c0.left if isinstance(c0, ast.Compare) else c0.operand if isinstance(c0, ast.UnaryOp) and isinstance(c0.op, ast.Not) else c0
+                        if isinstance(first, ast.NamedExpr) and isinstance(first.value, ast.Call) \
+                                and repo.resolve_call(f, first.value) in multi0 \
+                                and sum(1 for y in ast.walk(st.value) if isinstance(y, ast.NamedExpr)) == 1:
+                            X = st.targets[0].id
+                            meth = "append" if isinstance(st.value, ast.ListComp) else "add"
+                            loop = _lower_comp(st.value, lambda e: ast.Expr(ast.Call(ast.Attribute(ast.Name(X, ast.Load()), meth, ast.Load()), [e], [])), cnt)
+                            lp = loop[0]
+                            iff = lp.body[0]
+                            # the walrus is the first thing the test evaluates: it becomes a statement before the test
+                            t0 = iff.test
+                            w_ = t0.left if isinstance(t0, ast.Compare) else t0.operand if isinstance(t0, ast.UnaryOp) else t0
+                            asg = ast.Assign([ast.Name(w_.target.id, ast.Store())], w_.value)
+                            nm = ast.Name(w_.target.id, ast.Load())
+                            if isinstance(t0, ast.Compare):
+                                t0.left = nm
+                            elif isinstance(t0, ast.UnaryOp):
+                                t0.operand = nm
+                            else:
+                                iff.test = nm
+                            lp.body = [asg, iff]
+                            init = ast.Assign([ast.Name(X, ast.Store())], ast.List([], ast.Load()) if meth == "append"
+                                              else ast.Call(ast.Name("set", ast.Load()), [], []))
+                            for x in (init, lp):
+                                ast.copy_location(x, st)
+                                ast.fix_missing_locations(x)
+                                for y in ast.walk(x):
+                                    if hasattr(y, "lineno"):
+                                        y.lineno = y.end_lineno = st.lineno
+                            body[k:k + 1] = [init, lp]
+                            ch = True
+                            k += 1
+                    elif not isinstance(st, (ast.FunctionDef, ast.ClassDef)):
+                        for fld in ("body", "orelse", "finalbody"):
+                            b = getattr(st, fld, None)
+                            if isinstance(b, list) and b and isinstance(b[0], ast.stmt):
+                                ch |= lower_w(b)
+                        for h in getattr(st, "handlers", []) or []:
+                            ch |= lower_w(h.body)
+                    k += 1
+                return ch
+            lowered |= lower_w(f.node.body)
+        if lowered:
+            repo.reindex()
     gens0 = {k for k, f in new0.items() if eligible_generator(f.node)}
     if gens0:
         # `xs = [E(a) for a in new_generator(..)]`  ->  `xs = []; for a in new_generator(..): xs.append(E(a))`, so that the
@@ -1778,6 +1956,18 @@ def apply(repo) -> dict:
                 k = 0
                 while k < len(body):
                     st = body[k]
+                    if isinstance(st, ast.Return) and isinstance(st.value, (ast.ListComp, ast.SetComp)) \
+                            and len(st.value.generators) == 1 and not st.value.generators[0].is_async \
+                            and isinstance(st.value.generators[0].iter, ast.Call) \
+                            and repo.resolve_call(f, st.value.generators[0].iter) in gens0:
+                        # `return [E(a) for a in new_generator(..)]`: the list gets a name first
+                        asg = ast.Assign([ast.Name("_collected", ast.Store())], st.value)
+                        ret = ast.Return(ast.Name("_collected", ast.Load()))
+                        for x in (asg, ret):
+                            ast.copy_location(x, st)
+                            ast.fix_missing_locations(x)
+                        body[k:k + 1] = [asg, ret]
+                        st = asg
                     if isinstance(st, ast.Assign) and len(st.targets) == 1 and isinstance(st.targets[0], ast.Name) \
                             and isinstance(st.value, (ast.ListComp, ast.SetComp)) and len(st.value.generators) == 1 \
                             and not st.value.generators[0].is_async and isinstance(st.value.generators[0].iter, ast.Call) \
@@ -1857,6 +2047,9 @@ def apply(repo) -> dict:
             _project_tuples(f.node)
             _split_tuple_assigns(f.node)
             _coalesce_inliner_copies(f.node)
+            _beta_reduce_lambdas(f.node)
+            from .repo import _unroll_literal_quantifiers
+            _unroll_literal_quantifiers(f.node)
         # a loop over a list that was only built to be looped over is the loop over its source (everywhere: collecting
         # first and looping afterwards is a common way to write the same scan)
         if _unfold_comprehension_loops(f.node):
